@@ -2,6 +2,7 @@ import Driver.C20
 import Driver.C15
 import Driver.C16
 import Driver.C12
+import Driver.C10
 import Driver.C14
 import Driver.C09
 import Driver.C07
@@ -26,6 +27,7 @@ def step (st : St) (line : String) : St × String :=
   | "c15" :: rest => let (s', o) := C15.step st.c15 rest; ({ st with c15 := s' }, o)
   | "c16" :: rest => (st, C16.handle rest)
   | "c12" :: rest => (st, C12.handle rest)
+  | "c10" :: rest => (st, C10.handle rest)
   | "c14" :: rest => let (s, o) := C14.step st.c14 rest; ({ st with c14 := s }, o)
   | "c09" :: rest => let (s, o) := C09.step st.c09 rest; ({ st with c09 := s }, o)
   | "c07" :: rest => let (s, o) := C07.step st.c07 rest; ({ st with c07 := s }, o)
